@@ -214,6 +214,7 @@ def _expand_worker(task):
     from .harness.common import clear_caches
 
     ci, config, do_core, fresh, items = task
+    fresh = fresh or bool(config.get("fresh"))  # configurations whose point is memory shared between live objects
     st = Stats()
     succ = {}
     try:
@@ -405,6 +406,7 @@ def finish(h, tier, total, cov, wall):
     reported = 0
     per_clause = collections.Counter()
     printed_known = set()
+    reported_sigs = set()
     unlisted = 0
     for clause, case, detail in real:
         sig = case_signature(clause, case)
@@ -414,8 +416,9 @@ def finish(h, tier, total, cov, wall):
                 print(f"KNOWN-FINDING: property={pid} {known_sigs[sig].get('what', clause)}")
             continue
         unlisted += 1
-        if per_clause[clause] >= MAX_REPLAYS_PER_CLAUSE:
+        if per_clause[clause] >= MAX_REPLAYS_PER_CLAUSE or sig in reported_sigs:
             continue
+        reported_sigs.add(sig)
         # determinism: the same case must fail the same way twice on fresh objects
         try:
             r1 = h.replay(case)
